@@ -590,11 +590,19 @@ func c20perm(flat, out []string) ([]int, bool) {
 }
 
 func c20setFlat(ety cty.Type, s set.Set[interface{}]) (ids []int, flat []string) {
+	ids, flat, _ = c20setFlatV(ety, s)
+	return
+}
+
+// c20setFlatV: bucket id, fingerprint and member value, in bucket order
+func c20setFlatV(ety cty.Type, s set.Set[interface{}]) (ids []int, flat []string, vals []cty.Value) {
 	bids, buckets := set.VerifBuckets(s)
 	for i, b := range buckets {
 		for _, e := range b {
 			ids = append(ids, bids[i])
-			flat = append(flat, c20payloadFP(c20parse(cty.VerifDump(c20rawValue(ety, e)))))
+			v := c20rawValue(ety, e)
+			vals = append(vals, v)
+			flat = append(flat, c20payloadFP(c20parse(cty.VerifDump(v))))
 		}
 	}
 	return
